@@ -25,7 +25,9 @@ import (
 	simtestutil "github.com/cosmos/cosmos-sdk/testutil/sims"
 	sdk "github.com/cosmos/cosmos-sdk/types"
 	sdkmempool "github.com/cosmos/cosmos-sdk/types/mempool"
+	authsigning "github.com/cosmos/cosmos-sdk/x/auth/signing"
 	banktypes "github.com/cosmos/cosmos-sdk/x/bank/types"
+	sdkconsensustypes "github.com/cosmos/cosmos-sdk/x/consensus/types"
 	palomamempool "github.com/palomachain/paloma/v2/app/mempool"
 	constypes "github.com/palomachain/paloma/v2/x/consensus/types"
 	evmtypes "github.com/palomachain/paloma/v2/x/evm/types"
@@ -147,8 +149,9 @@ func metaOf(a *world.Actor) vtypes.MsgMetadata {
 // class c. The variant rotates over the real message types of the class's
 // module so that several type URLs of every class are exercised without
 // enlarging the alphabet.
-func msgsFor(a *world.Actor, c, v int) []sdk.Msg {
+func msgsFor(a *world.Actor, c, s, q int) []sdk.Msg {
 	md := metaOf(a)
+	v := s + q
 	switch c {
 	case clsConsensus:
 		return []sdk.Msg{[]sdk.Msg{
@@ -173,17 +176,82 @@ func msgsFor(a *world.Actor, c, v int) []sdk.Msg {
 			&vtypes.MsgAddExternalChainInfoForValidator{Metadata: md},
 		}[v%2]}
 	default:
-		switch v % 4 {
-		case 0: // foreign module
+		// "other": everything that is not a single message of one of the four
+		// palomachain.paloma.{consensus,scheduler,evm,valset} namespaces. One
+		// variant per (sender, seq) slot; slots 0,1,3,4 are those of the smallest
+		// alphabet (2 senders x 2 seqs). Several variants are look-alikes: type
+		// URLs of OTHER namespaces that contain a reserved domain segment.
+		switch s*3 + q {
+		case 0: // the SDK's x/consensus module (wired in app.go): foreign namespace, segment ".consensus."
+			return []sdk.Msg{&sdkconsensustypes.MsgUpdateParams{Authority: a.Addr.String()}}
+		case 1: // foreign module
 			return []sdk.Msg{&banktypes.MsgSend{FromAddress: a.Addr.String(), ToAddress: a.Addr.String(), Amount: sdk.NewCoins(sdk.NewInt64Coin(world.BondDenom, 1))}}
-		case 1: // paloma module outside the four prioritised domains
-			return []sdk.Msg{&skywaytypes.MsgSendToRemote{Metadata: md, EthDest: "0x0000000000000000000000000000000000000001", Amount: sdk.NewInt64Coin(world.BondDenom, 1), ChainReferenceId: "eth-main"}}
-		case 2: // two consensus messages: not a single-message tx, so "other"
-			return []sdk.Msg{&constypes.MsgAddMessagesSignatures{Metadata: md}, &constypes.MsgAddMessagesSignatures{Metadata: md}}
-		default:
+		case 2:
 			return []sdk.Msg{&palomatypes.MsgAddStatusUpdate{Metadata: md, Status: "s"}}
+		case 3: // hypothetical foreign module with an ".evm." segment
+			return []sdk.Msg{&fakeMsg{"foo.evm.bar.MsgDo"}}
+		case 4: // two consensus messages: not a single-message tx, so "other"
+			return []sdk.Msg{&constypes.MsgAddMessagesSignatures{Metadata: md}, &constypes.MsgAddMessagesSignatures{Metadata: md}}
+		case 5:
+			return []sdk.Msg{&fakeMsg{"acme.valset.v1.MsgRotate"}}
+		case 6: // paloma module outside the four prioritised domains
+			return []sdk.Msg{&skywaytypes.MsgSendToRemote{Metadata: md, EthDest: "0x0000000000000000000000000000000000000001", Amount: sdk.NewInt64Coin(world.BondDenom, 1), ChainReferenceId: "eth-main"}}
+		case 7:
+			return []sdk.Msg{&fakeMsg{"acme.scheduler.v1.MsgRun"}}
+		default: // the reserved namespace, but not at the start of the type URL
+			return []sdk.Msg{&fakeMsg{"evil.palomachain.paloma.consensus.MsgAddEvidence"}}
 		}
 	}
+}
+
+// fakeMsg is a message with an arbitrary type URL ("/"+name): gogoproto's
+// MessageName honours XXX_MessageName. Used only for look-alike URLs that no
+// registered module provides.
+type fakeMsg struct{ name string }
+
+func (m *fakeMsg) Reset()                   {}
+func (m *fakeMsg) String() string           { return m.name }
+func (m *fakeMsg) ProtoMessage()            {}
+func (m *fakeMsg) XXX_MessageName() string  { return m.name }
+func (m *fakeMsg) Marshal() ([]byte, error) { return []byte{}, nil }
+func (m *fakeMsg) Unmarshal([]byte) error   { return nil }
+
+// msgsTx is a really signed transaction whose message list is replaced: the
+// mempool reads sender and sequence from the embedded tx's first signature and
+// the priority class from GetMsgs.
+type msgsTx struct {
+	authsigning.Tx
+	msgs []sdk.Msg
+}
+
+func (t *msgsTx) GetMsgs() []sdk.Msg { return t.msgs }
+
+// buildTx signs msgs for (sender index s, sequence q). Messages the tx builder
+// cannot carry (fakeMsg) ride on a signed bank-send envelope.
+func (e *env) buildTx(rng *rand.Rand, act *world.Actor, s, q int, msgs []sdk.Msg) (tx sdk.Tx, err error) {
+	gen := func(ms []sdk.Msg) (t sdk.Tx, err error) {
+		defer func() {
+			if p := recover(); p != nil {
+				err = fmt.Errorf("panic: %v", p)
+			}
+		}()
+		return simtestutil.GenSignedMockTx(rng, e.w.App.TxConfig(), ms, sdk.NewCoins(), 1_000_000, world.ChainID,
+			[]uint64{uint64(s)}, []uint64{uint64(q)}, act.Priv)
+	}
+	fake := false
+	for _, m := range msgs {
+		if _, ok := m.(*fakeMsg); ok {
+			fake = true
+		}
+	}
+	if !fake {
+		return gen(msgs)
+	}
+	envl, err := gen([]sdk.Msg{&banktypes.MsgSend{FromAddress: act.Addr.String(), ToAddress: act.Addr.String(), Amount: sdk.NewCoins(sdk.NewInt64Coin(world.BondDenom, 1))}})
+	if err != nil {
+		return nil, err
+	}
+	return &msgsTx{Tx: envl.(authsigning.Tx), msgs: msgs}, nil
 }
 
 func newEnv(r *report.Run, shard int) *env {
@@ -215,9 +283,8 @@ func newEnv(r *report.Run, shard int) *env {
 		act := w.User(name)
 		for q := 0; q < 3; q++ {
 			for c := 0; c < nClasses; c++ {
-				msgs := msgsFor(act, c, s+q)
-				tx, err := simtestutil.GenSignedMockTx(rng, w.App.TxConfig(), msgs, sdk.NewCoins(), 1_000_000, world.ChainID,
-					[]uint64{uint64(s)}, []uint64{uint64(q)}, act.Priv)
+				msgs := msgsFor(act, c, s, q)
+				tx, err := e.buildTx(rng, act, s, q, msgs)
 				if err != nil {
 					fmt.Fprintln(os.Stderr, "cannot build tx:", err)
 					os.Exit(2)
@@ -674,7 +741,8 @@ func run(r *report.Run, shard, nshards int, replayFile string) {
 		"Insert is only issued when (sender, seq) is not pending (the stated precondition); replacing inserts are outside the property",
 		"Remove(absent) is issued with a tx object of that (sender, seq) that is not in the pool (never inserted, or inserted and removed earlier in the sequence); Remove of a different tx object with the (sender, seq) of a pending one is excluded by the same precondition",
 		"priority rule read in its weaker form: when t of sender S is emitted, every OTHER sender's next available tx (lowest pending sequence number not yet emitted) is in a class <= class(t); order among equal classes is unconstrained",
-		fmt.Sprintf("'other' transactions carry the context priority the ante chain sets (%d); bank send, skyway send-to-remote, paloma status update and a TWO-message consensus tx all count as 'other'", e.prio),
+		fmt.Sprintf("'other' transactions carry the context priority the ante chain sets (%d); reserved classes are only single-message txs whose type URL starts with /palomachain.paloma.{consensus,scheduler,evm,valset}. ; everything else is 'other': bank send, skyway send-to-remote, paloma status update, a TWO-message consensus tx, the SDK's /cosmos.consensus.v1.MsgUpdateParams and made-up foreign URLs containing a reserved segment (/foo.evm.bar.MsgDo, /acme.valset.v1.MsgRotate, /acme.scheduler.v1.MsgRun, /evil.palomachain.paloma.consensus.MsgAddEvidence)", e.prio),
+		"made-up type URLs ride as the message list of a really signed bank-send envelope (the mempool reads only GetMsgs and the first signature); additionally TxPriority is evaluated on a single-message tx of EVERY Msg type registered in the application's interface registry, expected class by namespace prefix",
 		"MaxTx = 0 and no TxReplacement/OnRead callbacks, as wired in app.go (DefaultPriorityMempool)",
 		"senders are distinguished by key; the sender tie-break of the priority index (address string order) is whatever the three fixed keys give",
 	}
@@ -702,28 +770,60 @@ func run(r *report.Run, shard, nshards int, replayFile string) {
 func (e *env) classRanks(r *report.Run) {
 	tp := palomamempool.NewDefaultTxPriority()
 	type pv struct {
-		id txID
-		p  int64
+		label string
+		c     int
+		p     int64
 	}
 	var all []pv
 	for s := 0; s < 3; s++ {
 		for q := 0; q < 3; q++ {
 			for c := 0; c < nClasses; c++ {
-				all = append(all, pv{txID{s, q, c}, tp.GetTxPriority(e.ctx, e.txs[s][q][c])})
+				id := txID{s, q, c}
+				all = append(all, pv{id.String() + " " + e.urls[s][q][c], c, tp.GetTxPriority(e.ctx, e.txs[s][q][c])})
 			}
 		}
 	}
+	// every Msg type the application registers, as a single-message tx; class by
+	// namespace prefix (property text), anything else is ordinary.
+	reg := e.w.App.InterfaceRegistry()
+	urls := reg.ListImplementations(sdk.MsgInterfaceProtoName)
+	sort.Strings(urls)
+	var lookalikes []string
+	nreg := 0
+	for _, u := range urls {
+		msg, err := reg.Resolve(u)
+		if err != nil {
+			continue
+		}
+		m, ok := msg.(sdk.Msg)
+		if !ok {
+			continue
+		}
+		c := clsOther
+		for i, d := range []string{"consensus", "scheduler", "evm", "valset"} {
+			if strings.HasPrefix(u, "/palomachain.paloma."+d+".") {
+				c = i
+			} else if strings.Contains(u, "."+d+".") {
+				lookalikes = append(lookalikes, u)
+			}
+		}
+		tx := &msgsTx{Tx: e.txs[0][0][clsOther].(authsigning.Tx), msgs: []sdk.Msg{m}}
+		all = append(all, pv{"registered " + u, c, tp.GetTxPriority(e.ctx, tx)})
+		nreg++
+	}
+	r.Extra["registered_msg_types_ranked"] = float64(nreg)
+	r.Extra["registered_lookalike_type_urls"] = lookalikes
 	for _, a := range all {
 		for _, b := range all {
 			want := 0
-			if clsRank[a.id.c] > clsRank[b.id.c] {
+			if clsRank[a.c] > clsRank[b.c] {
 				want = 1
-			} else if clsRank[a.id.c] < clsRank[b.id.c] {
+			} else if clsRank[a.c] < clsRank[b.c] {
 				want = -1
 			}
 			if got := tp.Compare(a.p, b.p); got != want {
-				r.Violate("priority-class-rank", fmt.Sprintf("TxPriority ranks %v (%s, %d) vs %v (%s, %d) as %d, classes say %d",
-					a.id, e.urls[a.id.s][a.id.q][a.id.c], a.p, b.id, e.urls[b.id.s][b.id.q][b.id.c], b.p, got, want), nil)
+				r.Violate("priority-class-rank", fmt.Sprintf("TxPriority ranks [%s: %s, %d] vs [%s: %s, %d] as %d, classes say %d",
+					a.label, clsName[a.c], a.p, b.label, clsName[b.c], b.p, got, want), nil)
 			}
 		}
 	}
